@@ -30,6 +30,9 @@ def run(ctx, rep):
     PRM.check_parser_premises(fx, rep, "C04.P")
     AR.check_mapper_constructors(fx, rep, "C04.api")
     LR.check_class_lookup(fx, rep, "C04.2")
+    # (cache side: lookups run over the sections `parse` slices out of the file and the per-class windows cut out of them)
+    LR.check_section_slices(fx, rep, "C04.S")
+    CF.check_parse(fx, rep, "C04.Sp")
     LR.check_remap_method(fx, rep, "C04.3")
     for impl in ("mapper", "cache"):
         wl, wo = RD.iterator_roles(fx, rep, "C04.4", impl)
